@@ -19,6 +19,7 @@ Functions:
 import hashlib
 import json
 import os
+import uuid
 
 from dataclasses import dataclass
 from pathlib import Path
@@ -689,9 +690,14 @@ def _download_from_resources(
     """
 
     def _worker(cache_miss: CacheMiss) -> bool:
+        # Download and post-process under a unique temporary name that does
+        # not match the cache file pattern; only a complete file is moved to
+        # its cache file name.
+        temporary_filepath = f"{cache_miss.filepath}.{uuid.uuid4().hex}.tmp"
         try:
-            cache_miss.download_function(cache_miss.uri, cache_miss.filepath)
-            cache_miss.post_process_function(cache_miss.filepath)
+            cache_miss.download_function(cache_miss.uri, temporary_filepath)
+            cache_miss.post_process_function(temporary_filepath)
+            os.replace(temporary_filepath, cache_miss.filepath)
             return True
         except _RemoteResourceUriNotFound as e:
             if cache_miss.allow_for_missing_files:
@@ -701,6 +707,9 @@ def _download_from_resources(
             else:
                 raise e
             return False
+        finally:
+            if os.path.exists(temporary_filepath):
+                os.remove(temporary_filepath)
 
     # construct the arguments to be used for parallel downloading of files.
     # Specifically, we need to match the right resource for downloading to the
